@@ -13,6 +13,8 @@ def natList (s : String) : Option (List Nat) :=
   split <k> <n>                           → prefix suffix
   join <p> <n> <s>                        → bytes
   rangeend <k> <n>                        → bytes
+  decode1 <k> <i>                         → bytes
+  truncfn <nf1> <nf2> <enc1:t|f> <enc2:t|f> <k> → bytes
 -/
 def step (l : List String) : String :=
   match l with
@@ -42,6 +44,13 @@ def step (l : List String) : String :=
   | ["rangeend", k, n] => match parseBytes k, parseNat n with
     | some k, some n => showBytes (rangeEnd k n)
     | _, _ => "bad-op"
+  | ["decode1", k, i] => match parseBytes k, parseNat i with
+    | some k, some i => showBytes (decode1 k i)
+    | _, _ => "bad-op"
+  | ["truncfn", n1, n2, e1, e2, k] =>
+    match parseNat n1, parseNat n2, parseBool e1, parseBool e2, parseBytes k with
+    | some n1, some n2, some e1, some e2, some k => showBytes (truncFn n1 n2 e1 e2 k)
+    | _, _, _, _, _ => "bad-op"
   | _ => "bad-op"
 
 def main : IO Unit := run step
